@@ -75,6 +75,10 @@ class Harness:
     def team(self, t):
         self.lib.vt_set_team(int(t))
 
+    def force_if(self, on):
+        """run regions whose `if` clause is false with the full team anyway"""
+        self.lib.vt_set_force_if(1 if on else 0)
+
     def detect(self, on):
         self.lib.vt_set_detect(1 if on else 0)
 
@@ -84,7 +88,7 @@ class Harness:
     def stats(self):
         L = self.lib
         return {"regions": L.vt_regions(), "regions_multi": L.vt_regions_multi(), "accesses": L.vt_total_access(),
-                "conflicts": L.vt_conflicts(), "oob": L.vt_oob(), "switches": L.vt_switches(), "max_chunks": L.vt_max_chunks()}
+                "conflicts": L.vt_conflicts(), "oob": L.vt_oob(), "switches": L.vt_switches(), "max_chunks": L.vt_max_chunks(), "if_serial": L.vt_if_serial()}
 
     def conflicts(self):
         out = []
